@@ -219,12 +219,18 @@ pub fn run_bin(bin: &Path, data: &Path, dump: &Path, spec: &RunSpec) -> RunResul
     }
     cmd.stdin(Stdio::null()).stdout(Stdio::piped()).stderr(Stdio::piped());
     let (nofile, fsize) = (spec.rlimit_nofile, spec.rlimit_fsize);
-    if nofile > 0 || fsize.is_some() {
+    // address-space limit (env entry VERIF_RLIMIT_AS of the spec, bytes): how the system answers an allocation request
+    let as_limit: Option<u64> = spec.env.iter().find(|(k, _)| k == "VERIF_RLIMIT_AS").and_then(|(_, v)| v.parse().ok());
+    if nofile > 0 || fsize.is_some() || as_limit.is_some() {
         unsafe {
             cmd.pre_exec(move || {
                 if nofile > 0 {
                     let r = libc::rlimit { rlim_cur: nofile, rlim_max: nofile };
                     libc::setrlimit(libc::RLIMIT_NOFILE, &r);
+                }
+                if let Some(a) = as_limit {
+                    let r = libc::rlimit { rlim_cur: a, rlim_max: a };
+                    libc::setrlimit(libc::RLIMIT_AS, &r);
                 }
                 if let Some(f) = fsize {
                     libc::signal(libc::SIGXFSZ, libc::SIG_IGN);
